@@ -549,16 +549,17 @@ STALE_KEYS = {
 
 
 def stale_explanation(st, what, ax, got):
-    """Is `got` reproduced by the shadow sum when enabled relative sources on this axis are evaluated at an *earlier*
-    value vector of the container (at least one of them not at the current one)?  Returns a description or None."""
+    """Is the covariance `got` reproduced by the shadow sum when enabled relative sources on this axis are evaluated at an
+    *earlier* value vector of the container (at least one of them not at the current one)?  Returns a description or None."""
+    assert what == "cov_mat"
     sh = st.sh
+    n = sh.n
     rel = [s for s in sh.sources if s["enabled"] and s["axis"] == ax and s["rel"]]
-    if not rel:
+    if not rel or not isinstance(got, np.ndarray) or got.shape != (n, n):
         return None
     cands = list(sh.history[ax])
     if sh.ctype in ("hist", "hist_model", "xy_model"):
-        cands.append(np.zeros(sh.n))  # storage right after construction / rebin / x setter, before the lazy recomputation
-    # drop duplicates and vectors equal to the current one
+        cands.append(np.zeros(n))  # storage right after construction / rebin / x setter, before the lazy recomputation
     uniq = []
     for c in cands:
         if np.array_equal(c, sh.vals[ax]) or any(np.array_equal(c, u) for u in uniq):
@@ -566,22 +567,31 @@ def stale_explanation(st, what, ax, got):
         uniq.append(c)
     if not uniq:
         return None
-    labelled = [("earlier-%d" % i, u) for i, u in enumerate(uniq)]
-    # 1) all relative sources at one common earlier vector
-    for lab, u in labelled:
-        cov, scale = sh.total(ax, {s["name"]: u for s in rel})
-        if consistent(what, got, cov, scale):
-            return {"all relative sources at": lab, "reference": u}
-    # 2) per-source combinations (bounded)
-    opts = labelled + [("current", sh.vals[ax])]
-    if len(opts) ** len(rel) > 4000:
-        return None
-    for combo in itertools.product(opts, repeat=len(rel)):
-        if all(lab == "current" for lab, _ in combo):
+    opts = [("earlier-%d" % i, u) for i, u in enumerate(uniq)] + [("current", sh.vals[ax])]
+    base = np.zeros((n, n))
+    base_scale = np.zeros((n, n))
+    for s_ in sh.sources:
+        if s_["enabled"] and s_["axis"] == ax and not s_["rel"]:
+            c = sh.source_cov(s_, sh.vals[ax])
+            base = base + c
+            base_scale = base_scale + np.abs(c)
+    table = [[sh.source_cov(s_, u) for _, u in opts] for s_ in rel]  # per source, per candidate reference
+    if len(opts) ** len(rel) > 30000:
+        # too many combinations: only "all relative sources at one common earlier vector"
+        combos = [tuple([j] * len(rel)) for j in range(len(opts) - 1)]
+    else:
+        combos = itertools.product(range(len(opts)), repeat=len(rel))
+    last = len(opts) - 1
+    for combo in combos:
+        if all(j == last for j in combo):
             continue
-        cov, scale = sh.total(ax, {s["name"]: u for s, (lab, u) in zip(rel, combo)})
-        if consistent(what, got, cov, scale):
-            return {"per source": {s["name"]: lab for s, (lab, _) in zip(rel, combo)}}
+        cov = base
+        scale = base_scale
+        for k, j in enumerate(combo):
+            cov = cov + table[k][j]
+            scale = scale + np.abs(table[k][j])
+        if cmp_cov(got, cov, scale * 4)[0]:
+            return {"relative sources evaluated at": {s_["name"]: opts[j][0] for s_, j in zip(rel, combo)}}
     return None
 
 
@@ -1158,7 +1168,7 @@ def gen_case(rng, tier, idx, stratum=None):
         if mk == "disable_error" and rng.random() < 0.8:
             ops.append(g.enable())
             ops.append(g.read(rw, ax))
-    while len(ops) < lmax and (len(ops) < 3 or rng.random() < 0.88):
+    while len(ops) < lmax and (len(ops) < 3 or rng.random() < (0.88 if tier == "quick" else 0.96)):
         ops.append(g.random_op())
     ops = [o for o in ops if o is not None][:lmax]
     return {"property": PROPERTY, "index": idx, "ctype": ctype, "n": n, "init": init, "ops": ops}
